@@ -14,6 +14,7 @@ import (
 	"math/rand"
 	"os"
 	"path/filepath"
+	"regexp"
 	"strings"
 
 	"github.com/tsawler/tabula"
@@ -109,6 +110,23 @@ func makeVariants(s samples.Sample, r *rand.Rand, neutral bool) []variant {
 	if ms == nil {
 		return vs
 	}
+	// OPC: the main part may get its content type from a <Default Extension="xml">
+	// instead of an <Override> (ECMA-376 Part 2, 10.1.2.2.3); every other XML part
+	// then carries an explicit Override. Half of the OOXML samples are typed this way.
+	ctDefault := false
+	if (s.Format == "docx" || s.Format == "xlsx" || s.Format == "pptx") && r.Intn(2) == 0 {
+		if ms2, ok := mainTypeViaDefault(ms); ok {
+			ms, ctDefault = ms2, true
+			vs = append(vs, variant{samples.Rezip(ms), []string{"content-types.main-via-default"}})
+		}
+	}
+	defer func() {
+		if ctDefault {
+			for i := range vs[1:] {
+				vs[1+i].features = append(vs[1+i].features, "content-types.main-via-default")
+			}
+		}
+	}()
 	pinFirst := 0
 	if s.Format == "odt" || s.Format == "epub" {
 		pinFirst = 1 // "mimetype" stays first
@@ -137,6 +155,43 @@ func makeVariants(s samples.Sample, r *rand.Rand, neutral bool) []variant {
 		vs = append(vs, variant{samples.Rezip(last), append([]string{"decoy.pos=last"}, feats...)})
 	}
 	return vs
+}
+
+var mainOverrideRe = regexp.MustCompile(`<Override PartName="(/[^"]+)" ContentType="([^"]*\.main\+xml)"\s*/>`)
+var defaultXMLRe = regexp.MustCompile(`<Default Extension="xml" ContentType="[^"]*"\s*/>`)
+
+// mainTypeViaDefault rewrites [Content_Types].xml so that the main part is typed
+// by the Default for the "xml" extension; XML parts that relied on that Default
+// get an Override with their old type.
+func mainTypeViaDefault(ms []samples.ZMember) ([]samples.ZMember, bool) {
+	out := append([]samples.ZMember{}, ms...)
+	for i, m := range out {
+		if m.Name != "[Content_Types].xml" {
+			continue
+		}
+		ct := string(m.Data)
+		mo := mainOverrideRe.FindStringSubmatch(ct)
+		if mo == nil || !defaultXMLRe.MatchString(ct) {
+			return nil, false
+		}
+		mainPart, mainType := mo[1], mo[2]
+		ct = strings.Replace(ct, mo[0], "", 1)
+		ct = defaultXMLRe.ReplaceAllString(ct, `<Default Extension="xml" ContentType="`+mainType+`"/>`)
+		var extra strings.Builder
+		for _, o := range ms {
+			pn := "/" + o.Name
+			if !strings.HasSuffix(strings.ToLower(o.Name), ".xml") || o.Name == "[Content_Types].xml" || pn == mainPart {
+				continue
+			}
+			if !strings.Contains(ct, `PartName="`+pn+`"`) {
+				fmt.Fprintf(&extra, `<Override PartName="%s" ContentType="application/xml"/>`, pn)
+			}
+		}
+		ct = strings.Replace(ct, "</Types>", extra.String()+"</Types>", 1)
+		out[i] = samples.ZMember{Name: m.Name, Data: []byte(ct)}
+		return out, true
+	}
+	return nil, false
 }
 
 func opens(path string) (ok bool, err error) {
